@@ -167,9 +167,12 @@ def scan_template() -> typing.Dict[str, str]:
         if not ms:
             raise Closed('assign_array: slow path not recognised')
         facts['t_len_slow'] = b(ms.group(1) is not None)
+        facts['t_arr_precheck'] = 'false'
         facts['arrelem_quirk'] = 'true'
     else:
-        ms = re.match(r"(?:# [^{]*?)?_a_ = _np_\.array\(" + SRC + ", " + NST + r"\)\.flatten\(\) "
+        ms = re.match(r"(?:# [^{]*?)?(\{%- if t\.element_type is IntegerType %\} _s_ = _np_\.asarray\(" + SRC + r"\) (?:# [^{]*? )?"
+                      r"if _s_\.size and _s_\.dtype\.kind in 'iufO' and not \(" + rmin + r" <= _s_\.min\(\) and _s_\.max\(\) <= " + rmax + r"\): "
+                      r"raise ValueError\(f'.*?'\) \{%- endif %\} )?_a_ = _np_\.array\(" + SRC + ", " + NST + r"\)\.flatten\(\) "
                       r"(if not _a_\.size" + CMPCAP + r": (?:# [^{]*? )?raise ValueError\(f'.*?'\) )?"
                       r"\{%- if t\.element_type is FloatType and t\.element_type\.bit_length < (\d+) %\} "
                       r"_x_ = _np_\.abs\(_np_\.asarray\(" + SRC + r", _np_\.float64\)\) (?:# [^{]*? )?"
@@ -179,10 +182,11 @@ def scan_template() -> typing.Dict[str, str]:
                       r"raise ValueError\(f'.*?'\) \{%- endif %\} self\._" + FID + r" = _a_ (?:# [^{]*? )?assert ", rest)
         if not ms:
             raise Closed('assign_array: element-checked slow path / element checks / final store not recognised')
-        facts['t_len_slow'] = b(ms.group(1) is not None)
+        facts['t_arr_precheck'] = b(ms.group(1) is not None)
+        facts['t_len_slow'] = b(ms.group(2) is not None)
         facts['arrelem_quirk'] = 'false'
-        facts['elem_float_below'] = ms.group(2)
-        facts['elem_std_widths'] = [int(x) for x in ms.group(3).replace(' ', '').split(',')]
+        facts['elem_float_below'] = ms.group(3)
+        facts['elem_std_widths'] = [int(x) for x in ms.group(4).replace(' ', '').split(',')]
 
     # ---- property setters -----------------------------------------------------------------------------------------
     acc = between(raw, '@{{ f|id }}.setter', '{% endfor -%}', 'setter')
@@ -287,7 +291,7 @@ def scan_template() -> typing.Dict[str, str]:
 
 ORDER = ['t_int_check', 't_float_check', 't_float_nonfinite_ok', 't_float_check_below', 't_cmp_fixed', 't_cmp_var', 't_len_bytes',
          't_len_nd', 't_len_slow', 't_bytes_max_w', 't_comp_isinstance', 't_union_clear_others', 't_union_clear_after',
-         't_union_ctor_count']
+         't_union_ctor_count', 't_arr_precheck']
 
 
 def gen_pyobj() -> typing.Tuple[bool, str]:
